@@ -3,7 +3,7 @@
    compat = model of pipefunc.typing.is_type_compatible (Model/Ty.v, after the repairs listed there),
    sub    = declarative relation from the property text (Model/Ty.v),
    subb   = its decision procedure, the oracle of the correspondence check (Model/TySpec.v). *)
-From Verif Require Import Base.Prelude Model.Ty Model.TyPipe Model.TySpec Proofs.TyFacts Proofs.TyPipeFacts Proofs.TyOrigFacts Model.TyOrig Corr.Run_C16.
+From Verif Require Import Base.Prelude Model.Ty Model.TyPipe Model.TySpec Proofs.TyFacts Proofs.TyPipeFacts Proofs.TyOrigFacts Model.TyOrig Model.TySets Proofs.TySetsFacts Corr.Run_C16.
 
 (* --- the algebraic laws named by the property, for ALL annotations of the grammar --- *)
 Theorem C16_compat_reflexive : forall a, compat a a = true.
@@ -120,3 +120,19 @@ Theorem C16_compat_orig_refuted :
   exists l : list (ty * ty), length l = 6 /\ forallb (fun p => disagrees (fst p) (snd p)) l = true.
 Proof. exact compat_orig_refuted. Qed.
 Print Assumptions C16_compat_orig_refuted.
+
+(* --- the reference relation is sound for a set-theoretic reading of the annotations (Model/TySets.v: den t v =
+       "v is a value of type t"), on the static fragment (classes, Any, unions, parametrised list/set/tuple/dict/
+       OrderedDict, Annotated, Array[T]; not the "unknown" forms -- missing annotation, Unresolvable, bare generics,
+       ndarray[...] -- which are compatible both ways, and not TypeVars) --- *)
+Theorem C16_sub_sound_sets : forall a b,
+  static a = true -> static b = true -> sub a b -> forall v, den a v -> den b v.
+Proof. exact sub_sound_sets. Qed.
+Print Assumptions C16_sub_sound_sets.
+
+Example C16_sound_sets_nonvacuous :
+  let a := TGen OODict [TCls CStr; TUnion [TCls CBool; TCls CNone]] in
+  let b := TAnnot (TGen ODict [TCls CStr; TUnion [TCls CInt; TCls CNone]]) [MStr (s "doc")] in
+  static a = true /\ static b = true /\ subb a b = true
+  /\ den a (VCont OODict [[VStr (s "k"); VBool true]; [VStr (s "l"); VNone]]).
+Proof. vm_compute. repeat split; try reflexivity. intros row [<-|[<-|[]]]; repeat split; auto. Qed.
